@@ -459,6 +459,16 @@ def run_case(ctx, case):
                 version = rng.choice(rig.VERSIONS)
                 owner = rng.choice(('alice', 'bob'))
                 how = rng.choice(('register',) * 6 + ('create', 'create_key_pair', 'derive'))
+                if step in (7, 13, 19, 23) and stored:
+                    # the newest object is destroyed by its owner; what is stored next is a new object, with nothing of the old
+                    newest = max(stored, key=lambda s_: int(s_.uid))
+                    try:
+                        rdn = srv.send([op_destroy(newest.uid)], (newest.owner, None), rng.choice(rig.VERSIONS))
+                        if rdn.error is None and rdn.ok():
+                            stored.remove(newest)
+                            ctx.count('newest_object_destroyed_before_the_next_is_stored')
+                    except Exception:
+                        pass
                 date = clock.now
                 if how == 'register':
                     kind, secret, attrs, meta = gen_object(rng, version)
